@@ -74,6 +74,30 @@ func childC10Write(args []string) int {
 	if fsize >= 0 {
 		unix.Setrlimit(unix.RLIMIT_FSIZE, &old)
 	}
+	if werr != nil && len(args) > 4 && args[4] == "then-second" {
+		// the same cache writes another Spec after the failure: nothing of the failed
+		// write may turn up in it. Reference bytes: the same Spec written by a fresh
+		// cache into a directory of its own.
+		second := specs.Spec{Version: "0.6.0", Kind: "vendor.com/gpu", Devices: []specs.Device{{Name: "second", ContainerEdits: specs.ContainerEdits{Env: []string{"SECOND=1"}}}}}
+		sname := "second" + filepath.Ext(name)
+		refDir, _ := os.MkdirTemp(filepath.Dir(dir), "ref")
+		defer os.RemoveAll(refDir)
+		ref, _ := cdi.NewCache(cdi.WithSpecDirs(refDir), cdi.WithAutoRefresh(false))
+		if ref.WriteSpec(&second, sname) != nil {
+			return 4
+		}
+		if filepath.Ext(sname) == "" {
+			sname += ".yaml"
+		}
+		want, _ := os.ReadFile(filepath.Join(refDir, sname))
+		serr := cache.WriteSpec(&second, sname)
+		got, _ := os.ReadFile(filepath.Join(dir, sname))
+		os.Remove(filepath.Join(dir, sname))
+		if serr != nil || !bytes.Equal(got, want) || len(want) == 0 {
+			fmt.Printf("SECOND-WRITE: err=%v, file holds %d bytes, expected %d: %q\n", serr, len(got), len(want), clip(string(got), 300))
+			return 7
+		}
+	}
 	if werr != nil {
 		return 3
 	}
@@ -392,14 +416,21 @@ func checkC10(c *Ctx) {
 		}
 		for _, k := range offsets {
 			sc.reset()
-			cmd := exec.Command(exe, "child-c10write", sc.dir, filepath.Base(sc.target), sc.specFile, strconv.Itoa(k))
-			err := cmd.Run()
+			cmd := exec.Command(exe, "child-c10write", sc.dir, filepath.Base(sc.target), sc.specFile, strconv.Itoa(k), "then-second")
+			cout, err := cmd.Output()
 			code := 0
 			if ee, ok := err.(*exec.ExitError); ok {
 				code = ee.ExitCode()
 			}
 			bad, state := sc.dirOracle()
 			c.Count("write_failure_offsets", 1)
+			if code == 7 {
+				i := strings.Index(string(cout), "SECOND-WRITE")
+				bad = append(bad, "the next Spec written through the same cache after the failed write is not what a fresh cache writes: "+clip(string(cout[max(i, 0):]), 500))
+				code = 3
+			} else if code == 3 {
+				c.Count("second_writes_after_a_failed_write", 1)
+			}
 			note(fmt.Sprintf("%s|fsize %s|exit%d|%s", sc.name, offClass(k, n), code, state))
 			c.Distinct(fmt.Sprintf("%s|fsize|%s|%s", sc.name, offClass(k, n), state))
 			if k < n && code == 0 {
